@@ -234,6 +234,8 @@ int main(int argc, char **argv) {
 	// Sort the indices from small to large so in decode() and encode() we can
 	// more easily check whether the document is in the range.
 	std::sort(indices.begin(), indices.end());
+	// An index given twice (e.g. by overlapping ranges) still selects the document once.
+	indices.erase(std::unique(indices.begin(), indices.end()), indices.end());
 
 	// If no files are passed in, read from stdin
 	if (files.empty())
